@@ -1,33 +1,34 @@
 (* C05 Hierarchical segment/record structure is matched greedily and completely.
-   Statements only; proofs in Proofs/Hier{Base,Sim,Main,Inst}.v.
+   Statements only; proofs in Proofs/Hier{Base,Sim,Main,Inst,Term}.v.
 
    Model/Hier.v      hstep / edi_step: the explicit-stack machines of hierarchyReader.go and
                      edi/reader.go; flat_leaf / edi_leaf: the leaf matchers.
    Model/HierSpec.v  spec: the documented recursive greedy, non-backtracking matcher. *)
 From Coq Require Import List Arith Bool.
 Import ListNotations.
-From OV Require Import Model.Hier Model.HierSpec Proofs.HierBase Proofs.HierSim Proofs.HierMain Proofs.HierInst.
+From OV Require Import Model.Hier Model.HierSpec Proofs.HierBase Proofs.HierSim Proofs.HierMain Proofs.HierInst Proofs.HierTerm.
 
-(* FULL STATEMENT (machine_eq_spec):
-     forall ds us, Forall (WF try_leaf) ds -> count_tgts ds <= 1 ->
-       run (hstep try_leaf) (run_fuel ds us) (init ds us) = spec try_leaf ds us.
-   PROVED below as machine_eq_spec_partial: the same equation for EVERY fuel with which the run
-   reaches a terminal result (so: the machine can never produce anything but the specification's
-   deliveries, subtrees and terminal class).  MISSING: hier_terminates, i.e. that
-   run_fuel ds us = (decls_size ds + 3) * (length us + 2) * 3 + 8 iterations always reach a terminal
-   result; it is checked on every correspondence case (an OutOfFuel would be a mismatch) and swept
-   over a small scope in hier_terminates_small_scope. *)
+(* run_fuel ds us = 2 * ((N * units + N) * (B + 1) + B) + 1 loop iterations, N = size of the
+   hierarchy + 2, B = N * N + N. *)
 Section Generic.
   (* any leaf matcher; WF asks of the leaves in the hierarchy that a match takes at least one and
      at most all of the remaining units (leaf_sound), of groups that they have children, min <= max,
      and max >= 1 *)
   Variable try_leaf : leaf -> list unt -> option nat.
 
-  Theorem machine_eq_spec_partial : forall ds us fuel,
+  (* the machine of hierarchyReader.go IS the documented greedy matcher: same deliveries in order,
+     same subtrees, same terminal result -- for every well-formed hierarchy and every unit sequence *)
+  Theorem machine_eq_spec : forall ds us,
     Forall (WF try_leaf) ds -> count_tgts ds <= 1 ->
-    snd (run (hstep try_leaf) fuel (init ds us)) <> TOutOfFuel ->
-    run (hstep try_leaf) fuel (init ds us) = spec try_leaf ds us.
-  Proof. exact (machine_eq_spec_run try_leaf). Qed.
+    run (hstep try_leaf) (run_fuel ds us) (init ds us) = spec try_leaf ds us.
+  Proof. exact (machine_eq_spec_full try_leaf). Qed.
+
+  (* every Read returns: the whole run reaches its terminal result within run_fuel iterations
+     (every group instance consumes a unit through its first record; between two matches the
+     position only moves forward through the declarations) *)
+  Theorem hier_terminates : forall ds us, Forall (WF try_leaf) ds ->
+    snd (run (hstep try_leaf) (run_fuel ds us) (init ds us)) <> TOutOfFuel.
+  Proof. exact (hier_terminates try_leaf). Qed.
 
   (* the specification's own occurrence-loop fuel (length us + 1 per loop) always suffices *)
   Theorem spec_fuel_enough : forall ds us,
@@ -35,7 +36,12 @@ Section Generic.
   Proof. exact (spec_fuel_enough try_leaf). Qed.
 
   (* EDI: same statement under the guard no_root_repeat (the unit left over when the declared
-     top-level sequence has completed does not start the first top-level declaration again) *)
+     top-level sequence has completed does not start the first top-level declaration again).
+     FULL STATEMENT: ... -> run (edi_step try_leaf) (run_fuel ds us) (init ds us) = spec try_leaf ds us.
+     PROVED for every fuel with which the run reaches a terminal result; MISSING: termination of
+     edi_step within run_fuel (the potential of Proofs/HierTerm.v has to count the re-instantiated
+     root frame as well); checked on every correspondence case and swept in
+     edi_terminates_small_scope. *)
   Theorem edi_eq_spec_nested_partial : forall ds us fuel,
     Forall (WF try_leaf) ds -> count_tgts ds <= 1 -> no_root_repeat try_leaf ds us ->
     snd (run (edi_step try_leaf) fuel (init ds us)) <> TOutOfFuel ->
@@ -64,13 +70,10 @@ End Generic.
 (* the csv2/fixedlength2 matchers (rows-based, header/footer with read-ahead) and the EDI name
    matcher satisfy the hypothesis on leaves; hierarchies that pass validation (decl_okb) and have
    max >= 1 (max_posb) are well-formed *)
-Theorem flat_machine_eq_spec_partial : forall ds us fuel,
+Theorem flat_machine_eq_spec : forall ds us,
   forallb wfb ds = true -> count_tgts ds <= 1 ->
-  snd (run (hstep flat_leaf) fuel (init ds us)) <> TOutOfFuel ->
-  run (hstep flat_leaf) fuel (init ds us) = spec flat_leaf ds us.
-Proof.
-  intros ds us fuel H. apply (machine_eq_spec_run flat_leaf). apply wfb_Forall_flat. exact H.
-Qed.
+  run_kind KHier ds us = spec_kind KHier ds us.
+Proof. exact flat_machine_eq_spec_full. Qed.
 
 Theorem edi_machine_eq_spec_nested_partial : forall ds us fuel,
   forallb wfb ds = true -> count_tgts ds <= 1 -> no_root_repeat edi_leaf ds us ->
@@ -102,13 +105,12 @@ Proof.
   vm_compute. repeat split; discriminate.
 Qed.
 
-(* hier_terminates over a small scope (a finite sweep, not the general statement): every
-   hierarchy of the shapes {d}, {d d}, {d[d]}, {g[d]} with min in {0,1,2}, max in {1,2,unbounded},
-   names in {1,2}, and every word of length <= 3 over {1,2,24} reaches a terminal result within
-   run_fuel iterations, on both machines *)
-Theorem hier_terminates_small_scope :
+(* termination of the EDI machine over a small scope (a finite sweep, not the general statement):
+   every hierarchy of the shapes {d}, {d d}, {d[d]}, {g[d]} with min in {0,1,2}, max in
+   {1,2,unbounded}, names in {1,2}, and every word of length <= 3 over {1,2,24} reaches a terminal
+   result within run_fuel iterations *)
+Theorem edi_terminates_small_scope :
   forallb (fun ds => forallb (fun us =>
-      negb (match snd (run_kind KHier ds us) with TOutOfFuel => true | _ => false end) &&
       negb (match snd (run_kind KEdi ds us) with TOutOfFuel => true | _ => false end))
     small_words) small_hiers = true.
 Proof. vm_compute. reflexivity. Qed.
